@@ -322,6 +322,12 @@ def subs(tier, only=None):
         out.append(Sub('assign-reuse', gen_reuse(tier), run_reuse,
                        rule='case = (path, value kind evaluated per target, missing factory, sequence of 2-3 targets): ONE Assign object applied to each target '
                             'in turn equals a fresh Assign every time', min_nontrivial=100, min_outcomes=1))
+    if only in (None, 'dynamic-keys'):
+        from . import c12
+        out.append(Sub('dynamic-keys', c12.gen_dynamic_keys(('assign',)), c12.run_dynamic_keys,
+                       rule='case = (path whose last / middle / only key is a T or Spec expression evaluated against the target, function | spec form): the effect '
+                            'equals item assignment with the evaluated key, and reading the same path back yields the value',
+                       min_nontrivial=15, min_outcomes=2, required_tags=['last-key-from-T', 'middle-key-from-T']))
     if only in (None, 'empty-segments'):
         from . import c12
         out.append(Sub('empty-segments', c12.gen_empty_segments(('assign',)), c12.run_empty_segments,
